@@ -177,6 +177,50 @@ func init() {
 			}
 		}
 	}
+	// big documents: a well-formed filler of F bytes (many small roots with distinct names) followed by every tail of up to
+	// two alphabet lines; the verdict, the offending line and the completeness of the rendering must not depend on how
+	// much text came before (internal buffers are refilled and moved while earlier nodes are still held)
+	small := props["C02"]
+	props["C02"] = func(c *rep.Ctx) {
+		small(c)
+		alpha := lineAlphabet("  ")
+		for _, F := range []int{2100, 4090, 4100, 6500, 13000, 70000} {
+			var sb strings.Builder
+			for i := 0; sb.Len() < F; i++ {
+				fmt.Fprintf(&sb, "- root%05d\n  - kid%05d\n    - leaf%05d\n", i, i, i)
+			}
+			filler := sb.String()
+			for L := 0; L <= 2 && !c.Expired(); L++ {
+				enum.Tuples(L, len(alpha), func(t []int) {
+					if !c.Take() || c.Expired() {
+						return
+					}
+					tail := strings.Join(enum.Pick(alpha, t), "\n")
+					for _, final := range []string{"\n", ""} {
+						if L == 0 && final == "" {
+							continue
+						}
+						doc := filler + tail + final
+						sp := model.ParseSpec(doc)
+						if sp.Verdict == model.OutOfDomain {
+							continue
+						}
+						c.StateN(1)
+						c.Inc("big_documents")
+						for _, mode := range []string{"text", "walk", "json", "text-noiter"} {
+							c02Judge(c, doc, sp, mode)
+						}
+					}
+				})
+			}
+			// and the filler alone, without a final newline
+			doc := strings.TrimSuffix(filler, "\n")
+			sp := model.ParseSpec(doc)
+			for _, mode := range []string{"text", "walk", "json", "text-noiter"} {
+				c02Judge(c, doc, sp, mode)
+			}
+		}
+	}
 	replayers["c02"] = func(raw json.RawMessage) bool {
 		var r c02Replay
 		if json.Unmarshal(raw, &r) != nil {
